@@ -82,9 +82,30 @@ def run_lf(pairs, batching):
     return int(isect.getNumIntersects())
 
 
+def run_operand(pairs, which):
+    """only ONE operand's trace of the two-finger intersections is collected (intersect_<which>) and handed, fiber by fiber, to a leader-follower model:
+    the number of elements that operand presented"""
+    isect = LeaderFollowerIntersector()
+    fibers = [(mkfiber(a, "K"), mkfiber(b, "K")) for a, b in pairs]
+    typ = f"intersect_{which}"
+    Metrics.beginCollect()
+    try:
+        Metrics.trace("K", typ, consumable=True)
+        for j, _ in mkfiber(range(len(pairs)), "J"):
+            a_k, b_k = fibers[j]
+            for _ in a_k & b_k:
+                pass
+            isect.addTraces(Metrics.consumeTrace("K", typ))
+        Metrics.consumeTrace("K", typ)
+    finally:
+        Metrics.endCollect()
+    return int(isect.getNumIntersects())
+
+
 def execute(case):
     out = {k: v for k, v in case.items()}
     out["exc"] = "ok"
+    out["oponly"] = [-9, -9]
     try:
         if case["kind"] == "intersect":
             res = []
@@ -113,6 +134,14 @@ def execute(case):
                         Metrics.collecting = False
                 res.append(r)
             out["res"] = res
+            if case.get("oponly"):
+                for q in (0, 1):
+                    try:
+                        out["oponly"][q] = run_operand(case["pairs"], q)
+                    except BaseException:  # noqa: B036
+                        out["oponly"][q] = -1
+                        if Metrics.isCollecting():
+                            Metrics.collecting = False
         else:
             lists = case["lists"]
             outs = []
